@@ -196,6 +196,9 @@ def make_distance_matrix_from_adjacency_matrix(AG):
     # Convert adjacency matrix to SciPy format if needed.
     if not sps.issparse(AG) and not isinstance(AG, np.ndarray):
         AG = np.asarray(AG)
+    # csgraph routines accept only some sparse formats (e.g. not COO on every code path).
+    if sps.issparse(AG):
+        AG = AG.tocsr()
 
     # Compile distance matrix of the graph based on its shortest path
     # lengths.
